@@ -31,7 +31,7 @@ var textFormats = []textFormat{
 		trailing: []string{"x\n", "]\n", `{"a"` + "\n", "[1,\n", "tru\n"}},
 	{name: "yaml", p: profile{null: true, boolean: true, float: true, nonFinite: true, uint64: true, rootContainer: true, indef: true, maxDepth: 4}, encode: enc.YAML, strFix: keepAll,
 		trailing: []string{"--- \nsecond: 1\n", "---\n- 2\n", "...\n---\nx: [\n"}},
-	{name: "toml", p: profile{boolean: true, float: true, nonFinite: true, rootMap: true, indef: true, maxDepth: 4}, encode: enc.TOML, strFix: keepAll,
+	{name: "toml", p: profile{boolean: true, float: true, nonFinite: true, rootMap: true, indef: true, maxDepth: 6}, encode: enc.TOML, strFix: keepAll,
 		trailing: []string{"\n= 1\n", "\n]]\n", "\nnot toml at all\n", "\n[unclosed\n", "\nk = \n"}},
 }
 
